@@ -328,7 +328,11 @@ func runVariants(prop, tier, repo string) []variantResult {
 		}
 		specs = append(specs, sp)
 	}
-	res := make([]variantResult, len(specs))
+	var seeds []seedSpec
+	if tier == "thorough" {
+		seeds = loadSeeds(prop)
+	}
+	res := make([]variantResult, len(specs)+len(seeds))
 	sem := make(chan struct{}, 4)
 	var wg sync.WaitGroup
 	for i, sp := range specs {
@@ -373,8 +377,136 @@ func runVariants(prop, tier, repo string) []variantResult {
 			res[i] = r
 		}(i, sp)
 	}
+	for j, sd := range seeds {
+		wg.Add(1)
+		go func(i int, sd seedSpec) {
+			defer wg.Done()
+			sem <- struct{}{}
+			defer func() { <-sem }()
+			res[i] = runSeed(prop, repo, sd)
+		}(len(specs)+j, sd)
+	}
 	wg.Wait()
 	return res
+}
+
+// ---- independently seeded changes (sub-agent patches) as thorough-tier variants ----
+
+type seedSpec struct {
+	ID     string
+	Dir    string
+	Expect string // substring expected in a violated obligation of this property's check ("" = any violation)
+	Note   string
+}
+
+// loadSeeds lists the seeded changes under /verif/seeded whose meta.json names prop among "checks".
+func loadSeeds(prop string) []seedSpec {
+	root := envOr("VERIF_SEEDED", "/verif/seeded")
+	metas, _ := filepath.Glob(filepath.Join(root, "*", "meta.json"))
+	sort.Strings(metas)
+	var out []seedSpec
+	for _, m := range metas {
+		data, err := os.ReadFile(m)
+		if err != nil {
+			continue
+		}
+		var meta struct {
+			Summary string            `json:"summary"`
+			Checks  []string          `json:"checks"`
+			Expect  map[string]string `json:"expect"`
+		}
+		if json.Unmarshal(data, &meta) != nil {
+			continue
+		}
+		for _, p := range meta.Checks {
+			if p == prop {
+				dir := filepath.Dir(m)
+				out = append(out, seedSpec{ID: "seed " + filepath.Base(dir), Dir: dir, Expect: meta.Expect[prop], Note: meta.Summary})
+			}
+		}
+	}
+	return out
+}
+
+// runSeed applies the seed's patch to copies of the files it touches (in a scratch directory outside the
+// repository), hands the patched files to a child vcheck as an overlay, and records whether this property's check
+// reports the change.
+func runSeed(prop, repo string, sd seedSpec) variantResult {
+	r := variantResult{ID: sd.ID, Expect: sd.Expect, Note: sd.Note}
+	patch := filepath.Join(sd.Dir, "patch.diff")
+	data, err := os.ReadFile(patch)
+	if err != nil {
+		r.Outcome = "skipped: no patch.diff"
+		return r
+	}
+	var files []string
+	for _, l := range strings.Split(string(data), "\n") {
+		if strings.HasPrefix(l, "+++ b/") {
+			files = append(files, strings.TrimSpace(strings.TrimPrefix(l, "+++ b/")))
+		}
+	}
+	tmp, err := os.MkdirTemp("", "vcheck-seed-*")
+	if err != nil {
+		r.Outcome = "skipped: " + err.Error()
+		return r
+	}
+	defer os.RemoveAll(tmp)
+	for _, f := range files {
+		src, err := os.ReadFile(filepath.Join(repo, f))
+		if err != nil {
+			continue // a file the patch creates
+		}
+		dst := filepath.Join(tmp, f)
+		os.MkdirAll(filepath.Dir(dst), 0o755)
+		os.WriteFile(dst, src, 0o644)
+	}
+	ap := exec.Command("git", "apply", "--whitespace=nowarn", patch)
+	ap.Dir = tmp
+	ap.Env = append(os.Environ(), "GIT_CEILING_DIRECTORIES="+filepath.Dir(tmp))
+	if out, err := ap.CombinedOutput(); err != nil {
+		r.Outcome = "skipped: the patch does not apply to the current tree (" + strings.TrimSpace(firstLine(string(out))) + ")"
+		return r
+	}
+	ov := map[string]string{}
+	for _, f := range files {
+		b, err := os.ReadFile(filepath.Join(tmp, f))
+		if err != nil {
+			continue
+		}
+		ov[filepath.Join(repo, f)] = string(b)
+	}
+	ovf, err := os.CreateTemp("", "vcheck-ov-*.json")
+	if err != nil {
+		r.Outcome = "skipped: " + err.Error()
+		return r
+	}
+	defer os.Remove(ovf.Name())
+	json.NewEncoder(ovf).Encode(ov)
+	ovf.Close()
+	cmd := exec.Command(os.Args[0], "-prop", prop, "-tier", "quick", "-no-evidence", "-overlay", ovf.Name(), "-repo", repo)
+	out, err := cmd.CombinedOutput()
+	code := 0
+	if ee, ok := err.(*exec.ExitError); ok {
+		code = ee.ExitCode()
+	}
+	switch {
+	case code == 2:
+		r.Outcome = "skipped: variant does not load/compile"
+	case code == 1 && (sd.Expect == "" || violationMentions(string(out), prop, sd.Expect)):
+		r.Outcome = "detected"
+	case code == 1:
+		r.Outcome = "detected (by another rule than expected)"
+	default:
+		r.Outcome = "MISSED"
+	}
+	return r
+}
+
+func firstLine(s string) string {
+	if i := strings.IndexByte(s, '\n'); i >= 0 {
+		return s[:i]
+	}
+	return s
 }
 
 // violationMentions: some VIOLATION line's obligation summary (the line after
